@@ -28,4 +28,12 @@ git -C /repo worktree remove --force $wt
 end=$(date +%s)
 echo "CHECK $prop tier=$tier exit=$rc secs=$((end-start))"
 grep -m3 "VIOLATION\|CHECK-ERROR\|^OK" $V/out/mutant.$prop.log | cut -c1-300
+python3 - <<PYEOF
+import json
+try:
+    c = json.load(open("$V/evidence/$prop.json"))["coverage"]
+    print("STRENGTH oracle_failures=%d correspondence_disagreements=%d proof_ok=%s hunted=%s" % (c["oracle_failures"], c["correspondence_disagreements"], c["discharged"] > 0, c["hunted_thorough"]))
+except Exception as e:
+    print("STRENGTH ?", e)
+PYEOF
 # evidence/<prop>.json now describes the mutant run: regenerate it from /repo before committing
